@@ -1,6 +1,6 @@
 """Simulation -> snapshot -> model checking (C15, C04, C09): the real System + ModelChecker::new vs the
 Lean simulator + snapshot + strategies; and impl-vs-impl route comparisons."""
-import random, re
+import random, re, struct
 from . import mc_suite, sim_suite, mc_checks
 from .common import run_pair, hash_text
 
@@ -22,9 +22,13 @@ def base_system(rng, prof=None):
     return topo, rules, locals_
 
 
+TIMER_HEAVY = dict(p_timer=0.5, p_cancel=0.25, p_send=0.2, p_local=0.05, p_once=0.3, same_timer_name=0.1, acts=(1, 4), rules=(2, 5),
+                   locals=(2, 3), procs=(1, 3))
+
+
 def gen_snapshot_scenario(rng, with_steps=True, faults=True, walk=0):
     """a simulated prefix, then `mc run` (snapshot + exploration), optionally followed by a simulated walk"""
-    topo, rules, locals_ = base_system(rng)
+    topo, rules, locals_ = base_system(rng, TIMER_HEAVY if rng.random() < 0.5 else None)
     nodes = [l.split()[1] for l in topo if l.startswith("node")]
     seed = rng.randrange(12)
     lines = [f"seed {seed}", f"draws {sim_suite.draws_for(seed)}"] + topo + rules
@@ -90,6 +94,43 @@ def run_snapshot(v, tier, seed, name="snapshot", n_quick=300, n_thorough=5000, w
                         "states, counters, crash flags); non-trivial = events pending at snapshot time",
                 "samples": [{"scenario": nm, "lines": [l for l in ls if not l.startswith("draws")]} for nm, ls in scen[-2:]]})
     return scen, impl, model, bad
+
+
+def _f(bits):
+    return struct.unpack(">d", bytes.fromhex(bits))[0]
+
+
+def _units(x):
+    u = x * 2.0
+    return str(int(u)) if u >= 0 and u == int(u) and u < 1e15 else "x" + struct.pack(">d", x).hex()
+
+
+def snapshot_timer_monitor(lines, out):
+    """C15/C04 on the implementation's own output: a timer pending at snapshot time is handed to the checker with its
+    *remaining* time, (set time + delay) - clock, computed here from the simulator's event log (IEEE doubles, same
+    operations).  Scenarios with callback operations are skipped (the callback may set timers itself)."""
+    if any(l.startswith("cb ") for l in lines):
+        return None
+    clock, sets, first = 0.0, {}, False
+    for l in out:
+        m = re.match(r"ret=\S+ t=([0-9a-f]{16})", l)
+        if m:
+            clock = _f(m.group(1))
+            for ts, name, proc, dl in re.findall(r"TS\(([0-9a-f]{16}),\d+,([^,]+),[^,]+,([^,]+),([0-9a-f]{16})\)", l):
+                sets[(proc, name)] = (_f(ts), _f(dl))
+        elif l.startswith("run "):
+            first = True
+        elif l.startswith("E ") and first:
+            first = False
+            em = re.search(r" E\[(.*?)\] A\[", l)
+            for proc, name, d in re.findall(r"T\(([^,]+),([^,]+),([^)]+)\)", em.group(1) if em else ""):
+                if (proc, name) in sets:
+                    ts, dl = sets[(proc, name)]
+                    want = _units((ts + dl) - clock)
+                    if d != want:
+                        return (f"timer {name} of {proc} was set at time {ts} with delay {dl}; at the snapshot the clock is {clock}, so "
+                                f"{want} half-units remain, but ModelChecker::new hands it to the checker with {d}")
+    return None
 
 
 def report(v, bad, name, monitor=None):
